@@ -374,6 +374,7 @@ func decodeStartReply(rep *reply) (*seenAuthnRequest, error) {
 type mwUser struct {
 	NameID       string // "" = assertion without NameID
 	NoNameID     bool
+	Confirmer    string // the bearer confirmation names this entity (the relaying gateway, say) as the one expected to present the assertion
 	Attrs        []AttrSpec
 	Index        string
 	IdPSessionMs int64 // >0: the IdP announces its own session end (SessionNotOnOrAfter) this long after issuance
@@ -395,6 +396,9 @@ func mwUsers() []mwUser {
 			{Name: "groups", Values: []string{"zqg7cqz"}}, {Name: "role", Friendly: "role", Values: []string{"admin"}}}},
 		// principals and values that differ from others only in white space (and from the gate's value only in white space)
 		{NameID: "alice ", Index: "si-alice-sp", Attrs: []AttrSpec{{Name: "role", Friendly: "role", Values: []string{" admin", "user\u00a0"}}, {Name: "unit", Values: []string{"\u2003zqunit10qz\n"}}}},
+		// the confirmation names who is expected to present the assertion; that is not the subject (saml-core 2.4.1.1)
+		{NoNameID: true, Confirmer: "zQgatewayQz", Index: "si-relayed", Attrs: []AttrSpec{{Name: "role", Friendly: "role", Values: []string{"user"}}}},
+		{NameID: "ivan", Confirmer: "zQgatewayQz", Index: "si-ivan", Attrs: []AttrSpec{{Name: "role", Friendly: "role", Values: []string{"admin"}}}},
 		{NameID: "\u00a0bob@example.com", Index: "si-bob-nbsp", Attrs: []AttrSpec{{Name: "role", Friendly: "role", Values: []string{"admin\t"}}}},
 	}
 }
@@ -422,7 +426,7 @@ func mwResponseSpec(d *mwDeploy, u mwUser, inResponseTo string, n int) RespSpec 
 	}
 	a := AsrtSpec{ID: fmt.Sprintf("id-as-%d", n), Issuer: idpEntity, NameID: u.NameID, NoNameID: u.NoNameID, SessionNOA: snoa,
 		NotBefore: i64(-1000), NotOnOrAfter: i64(3_600_000 * 24), Audiences: []string{d.entityID()}, Attrs: u.Attrs, SessionIndex: u.Index, Sign: true,
-		Confs: []ConfSpec{{NotOnOrAfter: i64(3_600_000 * 24), Recipient: d.acs(), InResponseTo: inResponseTo}}, Pretty: n%3 == 2}
+		Confs: []ConfSpec{{NotOnOrAfter: i64(3_600_000 * 24), Recipient: d.acs(), InResponseTo: inResponseTo, NameID: u.Confirmer}}, Pretty: n%3 == 2}
 	return RespSpec{Pretty: n%3 == 2, ID: fmt.Sprintf("id-resp-%d", n), Issuer: sp(idpEntity), Destination: d.acs(), InResponseTo: inResponseTo,
 		Status: saml.StatusSuccess, Sign: true, Assertions: []AsrtSpec{a}}
 }
